@@ -597,3 +597,9 @@ def inert(stmt):
 
 def live(body):
     return [s for s in body if not inert(s)]
+
+
+def last_live(body):
+    """Last statement of a body that is not inert, or None."""
+    b = live(body)
+    return b[-1] if b else None
